@@ -137,12 +137,19 @@ def is_file_like(x):
     return isinstance(x, (io.IOBase, FileProxy))
 
 
+_THIN = ("/pathlib.py", "/pathlib/_local.py", "/pathlib/__init__.py", "/codecs.py")
+
+
 def _caller_site(depth=2):
-    """(owned-by-tree-under-test?, 'file.py:function') of the function that called open()."""
+    """(owned-by-tree-under-test?, 'file.py:function') of the function that called open().  Thin standard-library
+    wrappers (Path.open, codecs.open) are looked through, so that a lasio that opens files through them stays
+    tracked."""
     f = sys._getframe(depth)
-    fn = f.f_code.co_filename
+    while f.f_back is not None and f.f_code.co_filename.replace("\\", "/").endswith(_THIN):
+        f = f.f_back
+    fn = f.f_code.co_filename.replace("\\", "/")
     site = "%s:%s" % (fn.rsplit("/", 1)[-1], f.f_code.co_name)
-    return ("/lasio/" in fn.replace("\\", "/")), site
+    return ("/lasio/" in fn), site
 
 
 class Tracker(object):
@@ -232,6 +239,8 @@ class Tracker(object):
     def cleanup(self):
         """Close what lasio left open (after the verdict has been taken)."""
         for r in self.records:
+            if r.kind != "opened":
+                continue
             try:
                 r.real.close()
             except Exception:  # noqa
